@@ -289,6 +289,15 @@ def run_case(ctx, seed, idx):
         for d in targets:
             if not drive(ctx, seed, idx, r, d, peer, case):
                 return
+        if idx % 5 == 1:
+            # another object with OTHER declarations of the same interface names is exported on the same path (export
+            # replaces what was there): calls are judged by what is exported now, not by what was called before
+            d3 = Decl(random.Random('%s/c10/%s/replacement' % (seed, idx)), idx, cname_suffix='R')
+            conn.exportObject(d3.obj)
+            peer.take()
+            ctx.count('objects_replaced_on_their_path')
+            if not drive(ctx, seed, idx, r, d3, peer, case):
+                return
     except RM.CodecError as e:
         ctx.report('malformed-reply', 'a reply written by the exporter is not a well-formed message: %s' % e,
                    {'idx': idx}, case)
